@@ -1,6 +1,7 @@
 package props
 
 import (
+	"context"
 	"errors"
 	"fmt"
 	"math/rand/v2"
@@ -32,6 +33,7 @@ func init() {
 			need(m, &out, "repeated_rewinds", 200)
 			need(m, &out, "long_stream_rewinds", 500)
 			need(m, &out, "many_rewinds_cases", 40)
+			need(m, &out, "rewinds_under_a_cancelled_context", 300)
 			need(m, &out, "rewinds_on_streams_with_damaged_tables", 500)
 			need(m, &out, "rewinds_with_a_size_detection_would_not_find", 200)
 			return out
@@ -343,6 +345,11 @@ func runC20Long(c *mon.Ctx) {
 }
 
 func rewindCase(c *mon.Ctx, stage string, idx int64, s *gen.Stream, m *gen.Model, cfg DemuxCfg, fresh *DemuxRun, k, k2 int) {
+	var cancelCtx context.CancelFunc
+	if k2 < 0 && (int(idx)+k)%5 == 4 {
+		cfg.Ctx, cancelCtx = context.WithCancel(context.Background())
+		defer cancelCtx()
+	}
 	dmx, tap := NewDemuxerFor(s.Bytes, cfg)
 	call := 0
 	step := func() (Item, bool) {
@@ -412,6 +419,34 @@ func rewindCase(c *mon.Ctx, stage string, idx int64, s *gen.Stream, m *gen.Model
 			c.Violate("C20/no-seek-to-zero:"+state, stage, idx, fmt.Sprintf("seeks observed: %v", tap.Seeks), data)
 		}
 		return true
+	}
+	if k2 < 0 && cfg.Ctx != nil && cancelCtx != nil {
+		// the Demuxer's context is cancelled before the Rewind: Rewind still reports 0 and no error and leaves the reader at 0,
+		// and what the calls return from then on is what they return on a Demuxer created with that (cancelled) context
+		cancelCtx()
+		if !doRewind() {
+			return
+		}
+		fresh2, _ := NewDemuxerFor(s.Bytes, cfg)
+		for j := 0; j < 6; j++ {
+			it, ok := step()
+			if !ok {
+				return
+			}
+			var ft Item
+			if cfg.API == "packet" || (cfg.API == "alt" && (call-1)%2 == 1) {
+				ft.Packet, ft.Err = fresh2.NextPacket()
+			} else {
+				ft.Data, ft.Err = fresh2.NextData()
+			}
+			if d := itemsEqual([]Item{it}, []Item{ft}); d != "" {
+				c.Violate("C20/differs-from-fresh:context-cancelled:"+state, stage, idx, fmt.Sprintf("call %d after a Rewind under a cancelled context vs a Demuxer created with that context: %s (errors: %v vs %v)", j, d, it.Err, ft.Err), data)
+				return
+			}
+		}
+		c.Count("rewinds_under_a_cancelled_context")
+		c.Case(mon.HashStr(fmt.Sprint(idx, cfg.API, cfg.PacketSize, k, "cancelled")), k > 0)
+		return
 	}
 	if !doRewind() {
 		return
